@@ -350,6 +350,18 @@ func runC11(c *Ctx) {
 }
 
 func c11Ownership(c *Ctx, entries []*ssa.Function) {
+	rule := "ownership: a write (map update, delete, element store, store through a pointer) on the signing call tree targets only fresh or signer-owned storage, never the caller's option maps or the descriptor the repository resolved"
+	fns, nWrites := ownershipWrites(c, entries, rule, false)
+	if nWrites < 3 {
+		c.Unk("ownership#count", "vacuity guard: the signing call tree contains map updates", "-", fmt.Sprintf("%d writes found", nWrites))
+	}
+	c.Extra["ownership_functions"] = fns
+	c.Extra["ownership_writes"] = nWrites
+}
+
+// ownershipWrites checks every write on the call tree of the entries against the origin analysis.
+// mapsOnly restricts the inventory to map updates and deletes.
+func ownershipWrites(c *Ctx, entries []*ssa.Function, rule string, mapsOnly bool) (int, int) {
 	w := c.W
 	oc := buildOriginCtx(w, entries)
 	var fns []*ssa.Function
@@ -357,7 +369,6 @@ func c11Ownership(c *Ctx, entries []*ssa.Function) {
 		fns = append(fns, f)
 	}
 	sort.Slice(fns, func(i, j int) bool { return fns[i].String() < fns[j].String() })
-	rule := "ownership: a write (map update, element store, store through a pointer) on the signing call tree targets only fresh or signer-owned storage, never the caller's option maps or the descriptor the repository resolved"
 	nWrites := 0
 	for _, f := range fns {
 		c.SeenFn(f.String())
@@ -369,7 +380,18 @@ func c11Ownership(c *Ctx, entries []*ssa.Function) {
 				switch x := in.(type) {
 				case *ssa.MapUpdate:
 					target, what = x.Map, "map update"
+				case *ssa.Call:
+					if bi, ok := x.Call.Value.(*ssa.Builtin); ok && bi.Name() == "delete" {
+						target, what = x.Call.Args[0], "delete"
+					} else if bi, ok := x.Call.Value.(*ssa.Builtin); ok && bi.Name() == "clear" {
+						target, what = x.Call.Args[0], "clear"
+					} else {
+						continue
+					}
 				case *ssa.Store:
+					if mapsOnly {
+						continue
+					}
 					switch a := x.Addr.(type) {
 					case *ssa.IndexAddr:
 						if _, local := a.X.(*ssa.Alloc); local {
@@ -423,11 +445,7 @@ func c11Ownership(c *Ctx, entries []*ssa.Function) {
 			}
 		}
 	}
-	if nWrites < 3 {
-		c.Unk("ownership#count", "vacuity guard: the signing call tree contains map updates", "-", fmt.Sprintf("%d writes found", nWrites))
-	}
-	c.Extra["ownership_functions"] = len(fns)
-	c.Extra["ownership_writes"] = nWrites
+	return len(fns), nWrites
 }
 
 func c11SignOCI(c *Ctx, W *ssa.Function) {
